@@ -496,6 +496,8 @@ pub fn c02() -> Outcome {
     ops.push(f_of(F::Constant(0.0))); ops.push(f_of(F::Constant(-2.0)));
     ops.push(f_of(F::Linear(lin(&[(2, -3.0), (1, -7.0)], -1.0))));                       // cancels against plain_functions()[1]
     ops.push(f_of(F::Polynomial(poly(&[(&[2, 1], 1.0), (&[2, 2], -0.5), (&[3, 3, 3], -0.5)]))));
+    ops.push(f_of(F::Polynomial(poly(&[(&[], 2.0), (&[], 3.0)]))));                                  // a degree-0 polynomial stored as two constant monomials
+    ops.push(f_of(F::Polynomial(poly(&[(&[], 0.5), (&[1], 1.0), (&[], -1.5), (&[1], 2.0)]))));        // repeated constant and repeated linear monomials
     let deg = |f: &Function| -> usize { match f.function.as_ref() { Some(F::Constant(_)) | None => 0, Some(F::Linear(_)) => 1, Some(F::Quadratic(_)) => 2, Some(F::Polynomial(p)) => p.terms.iter().map(|t| t.ids.len()).max().unwrap_or(0), Some(_) => 0 } };
     let check = |what: &str, r: &Function, a: &Function, b: Option<&Function>, f: &dyn Fn(f64, f64) -> f64| -> Result<(), String> {
         let allowed: BTreeSet<u64> = ref_ids(a).union(&b.map(ref_ids).unwrap_or_default()).cloned().collect();
